@@ -1,5 +1,8 @@
 import Pog.Drv.Util
 import Pog.Drv.Names
+import Pog.Drv.Http
+import Pog.Drv.Stream
+import Pog.Drv.Registry
 /-
   Line protocol: one JSON request per line on stdin, one JSON reply per line on stdout.
     request  {"f": <function>, "a": [<args>], "u": {<codepoint>: {"w":bool,"d":bool,"l":str,"U":str,"iu":bool}}}
@@ -10,7 +13,10 @@ import Pog.Drv.Names
 open Lean Pog Pog.Drv
 
 def dispatchers : List Dispatch := [
-  dispatchNames
+  dispatchNames,
+  dispatchHttp,
+  dispatchStream,
+  dispatchRegistry
 ]
 
 def dispatch (f : String) (a : Array Json) (u : UInfo) : Except String Json :=
